@@ -35,7 +35,10 @@ func checkC06(ctx *Ctx, r *Report, tier string) {
 	r.Trusted = []string{"go/types", "go/ssa", "sdfxlint symbolic evaluator and term normaliser", "sync.WaitGroup semantics"}
 	r.Assume = []string{"floating-point rounding is outside the claim"}
 
-	for _, k := range []struct{ fn, interp string; n int }{{"mcToTriangles", "mcInterpolate", 3}, {"msToLines", "msInterpolate", 2}} {
+	for _, k := range []struct {
+		fn, interp string
+		n          int
+	}{{"mcToTriangles", "mcInterpolate", 3}, {"msToLines", "msInterpolate", 2}} {
 		interpSnap(ctx, r, "render", k.interp)
 		kfn := ctx.ssaFunc("render", k.fn)
 		if kfn == nil {
@@ -77,7 +80,10 @@ func checkC06(ctx *Ctx, r *Report, tier string) {
 		}
 		latticeSizing(ctx, r, ufn, "newLineCache", 2)
 	}
-	for _, t := range []struct{ fn, kernel string; dim int }{{"(*dcache3).processCube", "mcToTriangles", 3}, {"(*dcache2).processSquare", "msToLines", 2}} {
+	for _, t := range []struct {
+		fn, kernel string
+		dim        int
+	}{{"(*dcache3).processCube", "mcToTriangles", 3}, {"(*dcache2).processSquare", "msToLines", 2}} {
 		if fn := ctx.ssaFunc("render", t.fn); fn != nil {
 			if cm, _, err := treeCorners(ctx, fn, t.kernel, t.dim, "evaluate", "isEmpty"); err != nil {
 				r.undecided("V3", t.fn, fn.Pos(), err.Error())
@@ -86,7 +92,10 @@ func checkC06(ctx *Ctx, r *Report, tier string) {
 			}
 		}
 	}
-	for _, c := range []struct{ ctor, eval string; dim int }{{"newDcache3", "(*dcache3).evaluate", 3}, {"newDcache2", "(*dcache2).evaluate", 2}} {
+	for _, c := range []struct {
+		ctor, eval string
+		dim        int
+	}{{"newDcache3", "(*dcache3).evaluate", 3}, {"newDcache2", "(*dcache2).evaluate", 2}} {
 		cacheFresh(ctx, r, c.ctor)
 		cacheEvaluate(ctx, r, c.eval, c.dim)
 	}
